@@ -22,9 +22,17 @@ dir=${DEMODIR:-$(grep -oE 'pkg/[a-z/]+/|cmd/' "$src/$x.notes.md" | head -1)}
 [ "$pkgline" = main ] && dir=cmd/
 [ -z "$dir" ] && dir=$(git apply --numstat "$src/$x.patch.diff" | awk '{print $3}' | head -1 | xargs dirname)/
 cp "$demo" "$wt/${dir}zz_seed_demo_test.go"
-demo_clean=$(go test -vet=off -count=1 -run 'Demo|Seed|C[0-9][0-9]' "./$dir" >/dev/null 2>&1 && echo pass || echo fail)
+names=$(grep -oE '^func (Test[A-Za-z0-9_]+)' "$demo" | awk '{print $2}' | paste -sd'|')
+pat="^(${names:-Demo})\$"
+demo_clean=$(go test -vet=off -count=1 -run "$pat" "./$dir" >/dev/null 2>&1 && echo pass || echo fail)
 git apply "$src/$x.patch.diff"
-demo_mut=$(go test -vet=off -count=1 -run 'Demo|Seed|C[0-9][0-9]' "./$dir" >/dev/null 2>&1 && echo pass || echo fail)
+demo_mut=$(go test -vet=off -count=1 -run "$pat" "./$dir" >/dev/null 2>&1 && echo pass || echo fail)
+if [ "$demo_mut" = pass ]; then
+  # demonstrations of data races only fail under the race detector
+  for k in 1 2 3; do
+    go test -race -vet=off -count=1 -run "$pat" "./$dir" >/dev/null 2>&1 || { demo_mut=fail; break; }
+  done
+fi
 rm -f "$wt/${dir}zz_seed_demo_test.go"
 suite=$(go test -vet=off -count=1 ./... >/dev/null 2>&1 && echo pass || echo fail)
 echo "{\"id\":\"$id-$x\",\"applies_to_head\":true,\"demo_dir\":\"$dir\",\"demo_on_clean\":\"$demo_clean\",\"demo_with_change\":\"$demo_mut\",\"suite_with_change\":\"$suite\"}"
